@@ -1,4 +1,4 @@
-CONSTANTS CiStart = 15 K = 39 NP = 2 Sizes = {0, 1, 33, 34, 35, 38, 73} Fills = {0, 1, 2} MaxBlocks = 2 Faults = {"none", "drop", "err2"} Units = {"bp"} Policies = {"strict"} UnitBlocks = 2 TailCheck = TRUE Foreign = {"none", "page"} TailAtForeign = TRUE
+CONSTANTS CiStart = 15 K = 39 NP = 2 Sizes = {0, 1, 33, 34, 35, 38, 73} Fills = {0, 1, 2} MaxBlocks = 2 Faults = {"none", "drop", "err2"} Units = {"bp"} Policies = {"strict"} UnitBlocks = 2 TailCheck = TRUE Foreign = {"none", "page"} TailAtForeign = TRUE Noise = {0} NoisePos = {"all"} NoiseFaults = {"none"}
 SPECIFICATION GLeapSpec
 CONSTRAINT Dump
 INVARIANTS Sound Complete Resume
